@@ -308,6 +308,13 @@ def verify_unit(spec, registry, fuel=2, timeout_ms=10000, mutate=None, prop=None
     rep.pruned = ex.pruned
     rep.cover = ex.cover
     t1 = time.time()
+    if rep.error is not None:
+        # undecided unit: only its syntactic obligations (they do not depend on the symbolic execution) are reported
+        ex.obls = [o for o in ex.obls if o.kind == "static"]
+        rep.obligations = ex.obls
+        rep.results = solve.discharge_all(ex.obls, registry.specfuns, fuel=1, jobs=1)
+        rep.solve_s = time.time() - t1
+        return rep
     if prop is not None:
         # clauses that exist only because of another property's statement are that property's business
         ex.obls = [o for o in ex.obls if not o.meta.get("props") or prop in o.meta["props"]]
